@@ -15,13 +15,17 @@ class C12(Prop):
         return [Suite("status", execgen.HEADER, st), Suite("latch", execgen.HEADER, la), Suite("exec", execgen.HEADER, [execgen.gen_case(rng, maxL=4) for _ in range(n)]),
                 # Multi executors: 1-4 listeners, one of them removed individually (flush_and_cancel_executor) between two batches of events,
                 # the others ended all at once by Multi::close (five non-log Multi kinds; oracle only)
-                Suite("multi_executors(oracle only)", execgen.HEADER, [execgen.gen_mcase_removal(rng) for _ in range(n // 2)], compare=False)]
+                Suite("multi_executors(oracle only)", execgen.HEADER, [execgen.gen_mcase_removal(rng) for _ in range(n // 2)], compare=False),
+                # the log channel's old / new pair of executors, sequential_transition on and off (oracle only)
+                Suite("log_old_new_executors(oracle only)", execgen.HEADER, [execgen.gen_logcase(rng) for _ in range(n // 3)], compare=False)]
     def oracle(self, case, recs):
         if case.meta.get("profile") == "mexec": return execgen.oracle_mexec_c12(case, recs)
+        if case.meta.get("profile") == "mlog": return execgen.oracle_mlog(case, recs)
         return execgen.oracle_c12(case, recs)
     def nontrivial(self, case, recs):
         m = case.meta
         if m["profile"] == "mexec": return m["k"] >= 2 and m.get("cancel", -1) >= 0
+        if m["profile"] == "mlog": return 0 < m["old"] < len(m["items"])
         return (m["profile"] == "status" and m["sched"] != "never") or (m["profile"] == "latch" and m["M"] > 1) or (m["profile"] == "exec" and len(m["items"]) >= 2)
     def parse_replay(self, text):
         lines = [l for l in text.splitlines() if l.strip() and not l.startswith("#")]
